@@ -43,7 +43,8 @@ def main(argv):
     props = props or ["C%02d" % i for i in range(1, 21)]
     os.makedirs(WORK, exist_ok=True)
     env = dict(os.environ, CARGO_NET_OFFLINE="true", RUSTFLAGS="-C instrument-coverage",
-               CARGO_TARGET_DIR=os.path.join(WORK, "target"))
+               CARGO_TARGET_DIR=os.path.join(WORK, "target"),
+               LLVM_PROFILE_FILE=os.path.join(WORK, "build-%p.profraw"))   # build scripts / proc macros are instrumented too
     sh(["cargo", "+nightly", "build", "--offline"], cwd=os.path.join(VERIF, "harness"), env=env)
     exe = os.path.join(WORK, "target", "debug", "ppp-verif-harness")
     nprof = 0
